@@ -75,6 +75,14 @@ theorem shr_eq_div (a k : Nat) : a >>> k = a / 2^k := Nat.shiftRight_eq_div_pow 
 theorem mul_mod_mul (x U b : Nat) : (x * b) % (U * b) = (x % U) * b :=
   Nat.mul_mod_mul_right b x U
 
+theorem mod_two {x T : Nat} (h : x < 2 * T) : x % T = if x < T then x else x - T := by
+  split
+  · next h1 => exact Nat.mod_eq_of_lt h1
+  · next h1 =>
+    have h2 : x ≥ T := Nat.le_of_not_lt h1
+    have h3 : x - T < T := by omega
+    rw [Nat.mod_eq_sub_mod h2]; exact Nat.mod_eq_of_lt h3
+
 /-! ### invariant -/
 
 def WordsOK (c : Cfg) (l : List Nat) : Prop := ∀ w ∈ l, w < 2^c.W
